@@ -140,7 +140,7 @@ pub fn pick(names: &[&str], thorough: bool) -> Vec<Suite> {
 
 pub fn run_check(prop: &str, tier: &str) -> i32 {
     let thorough = tier == "thorough";
-    let budget = if thorough { 900.0 } else { 40.0 };
+    let budget = if thorough { 900.0 } else { 52.0 };
     let mut report = Report::new(prop, tier, "model_checking");
     crate::util::start_watchdog(prop, tier, 30);
     match prop {
@@ -169,11 +169,16 @@ pub fn run_check(prop: &str, tier: &str) -> i32 {
         "C03" => {
             let s = suites::crash_suites(thorough);
             let plan = crashprops::CrashPlan { crash: true, layout_tag: "C10", nest: 0, reopen_cycles: 0, sector_tear: true, layout: false, probe_auto_ts: false, continue_after: false };
-            crashprops::crash_check(prop, s, &["C03"], plan, budget * 0.65, &mut report);
+            crashprops::crash_check(prop, s, &["C03"], plan, budget * 0.4, &mut report);
+            // the same suites without sector tearing go deeper; most of the time goes to the
+            // overwrite / reuse chains on tiny devices (see `suite_weight`)
+            let s = suites::crash_suites(thorough);
+            let plan = crashprops::CrashPlan { crash: true, layout_tag: "C10", nest: 0, reopen_cycles: 0, sector_tear: false, layout: false, probe_auto_ts: false, continue_after: false };
+            crashprops::crash_check("C03-deep", s, &["C03"], plan, budget * 0.3, &mut report);
             // a crash inside recovery's own repair writes is a crash instant too: nested images
             let s = suites::crash_suites(thorough);
             let plan = crashprops::CrashPlan { crash: true, layout_tag: "C10", nest: if thorough { 2 } else { 1 }, reopen_cycles: 0, sector_tear: false, layout: false, probe_auto_ts: false, continue_after: false };
-            crashprops::crash_check(prop, s, &["C03"], plan, budget * 0.35, &mut report);
+            crashprops::crash_check(prop, s, &["C03"], plan, budget * 0.3, &mut report);
         }
         "C04" => {
             let s = suites::crash_suites(thorough);
